@@ -176,6 +176,19 @@ pub fn build(rng: &mut Rng, o: &mut Outcome) -> Spreadsheet {
             o.count("column-runs", 1);
             c += run + rng.range(0, 2);
         }
+        if rng.chance(1, 3) {
+            // neighbours that agree in everything but formatting: [formatted][unformatted] and [unformatted][formatted]
+            let (w, st) = (*rng.pick(&[9.5, 14.0, 31.0]), rng.pick(&styles).clone());
+            let formatted_first = rng.chance(1, 2);
+            for j in 0..2u32 {
+                let col = ws.get_column_dimension_by_number_mut(&(c + 2 + j));
+                col.set_width(w);
+                if (j == 0) == formatted_first {
+                    col.set_style(st.clone());
+                }
+            }
+            o.count("column-neighbours-differing-in-format-only", 1);
+        }
     }
     book
 }
